@@ -144,6 +144,13 @@ def run(ctx):
         for path in sorted(set(got_leaves) | set(want_leaves)):
             ctx.oblige("C12|handwritten-leaf|" + path, got_leaves.get(path) == want_leaves.get(path),
                        "hand-written decoder %s reads %s, documented %s: the declared width / capacity of the member is bypassed" % (path, sorted(got_leaves.get(path, [])), sorted(want_leaves.get(path, []))), cfg=cfg)
+        # "a value that is accepted is delivered whole ... except the members documented as lossy": the lossy decoders lose
+        # exactly what is documented (C13's rules are a necessary condition here as well)
+        from . import c13
+        from .engine import Probe
+        pr = Probe(facts={cfg: F})
+        c13.run(pr)
+        ctx.oblige("C12|lossy-semantics", not pr.failed, "a lossy decoder alters or drops values beyond what is documented: %s" % "; ".join("%s: %s" % (k, m[:160]) for k, m in pr.failed[:2]), cfg=cfg)
         hand = sorted({(f["impl"]["self_ty"].get("path") or f["impl"]["self_ty"]["s"]) for f in F.fns
                        if f["name"] == "deserialize" and (f.get("impl") or {}).get("trait") == DE and f["impl"].get("impl_pv") == "user"
                        and "__" not in f["impl"]["self_ty"]["s"] and "::deserialize::" not in f["impl"]["self_ty"]["s"]})
